@@ -92,7 +92,7 @@ class G:
             return d
         return self.vars
 
-    def new_var(self, t: str, cx: Cx, counter=False) -> str:
+    def new_var(self, t: str, cx: Cx, counter=False, plain=False) -> str:
         self.nvar += 1
         name = "v%d" % self.nvar
         slot = None
@@ -104,6 +104,8 @@ class G:
         d = {"t": t, "slot": slot}
         if counter:
             d["counter"] = True
+        elif slot is None and not plain and self.opts.get("abi_vars") and self.level >= 5 and self.chance(self.opts["abi_vars"]):
+            d["kind"] = "abi"
         if cx.routine is not None and not self.opts.get("routine_vars_global", False):
             d["slot"] = None  # explicit ids inside a re-entrant routine would alias by design
             cx.routine["locals"][name] = d
@@ -611,9 +613,9 @@ class G:
                 else:
                     args.append(["int", self.i(0, 3)])
             elif kind == "ref":
-                vs = [n for n, d in self.scope_vars(cx).items() if d["t"] == pt_ and not d.get("counter") and (cx.routine is None or not d.get("ref") or True)]
+                vs = [n for n, d in self.scope_vars(cx).items() if d["t"] == pt_ and not d.get("counter") and d.get("kind") != "abi"]
                 if not vs:
-                    vs = [self.new_var(pt_, cx)]
+                    vs = [self.new_var(pt_, cx, counter=False, plain=True)]
                 args.append(["ref", self.pick(vs)])
             else:
                 args.append(self.U(o) if pt_ == "U" else self.B(o))
